@@ -21,6 +21,7 @@ APPEND = {
     'metadata.rs': 'src/metadata.rs',
     'count_write.rs': 'src/count_write.rs',
     'error.rs': 'src/error.rs',
+    'compression.rs': 'src/compression.rs',
     'sorter.rs': 'src/sorter.rs',
     'block.rs': 'src/block.rs',
     'block_writer.rs': 'src/block_writer.rs',
